@@ -49,7 +49,7 @@ func Attribute(m Mismatch, running string) string {
 			return "C02"
 		case has("!badsig", "!nosig", "!wrongkey", "!newkeys"):
 			return "C03"
-		case has("!plus1", "!minus1", "!fee1", "!tax", "!zero"):
+		case has("!plus1", "!minus1", "!fee1", "!tax", "!zero", "block!payout"):
 			return "C01"
 		case has("!early", "!timing", "immature", "!era", "!phpast", "!wspast", "!nowindow"):
 			return "C08"
